@@ -808,7 +808,25 @@ pub fn candidates(spec: &Spec, k: usize, r: &mut Rng, random_extra: usize) -> Ve
                         None
                     }
                 };
-                out.push(Candidate { content: render(spec, k, &over, &default_counts), component: comp_label.clone(), class: label });
+                out.push(Candidate { content: render(spec, k, &over, &default_counts), component: comp_label.clone(), class: label.clone() });
+                // the boundary lengths again with everything optional after the component absent (a
+                // length check that only works when something follows, or that mistakes the rest)
+                if (len == c.max || len == c.min) && len > 0 {
+                    let later_optional = spec.lines[li].comps.iter().skip(ci + 1).any(|x| x.optional) || spec.lines.iter().skip(li + 1).any(|x| x.optional);
+                    if later_optional {
+                        let over2 = |l2: usize, c2: usize, rep: usize| {
+                            if l2 == li && c2 == ci && rep == 0 {
+                                over(l2, c2, rep)
+                            } else if l2 == li && c2 > ci && spec.lines[l2].comps[c2].optional {
+                                Some(String::new())
+                            } else {
+                                None
+                            }
+                        };
+                        let counts2 = |l2: usize| if l2 > li && spec.lines[l2].optional { 0 } else { default_counts(l2) };
+                        out.push(Candidate { content: render(spec, k, &over2, &counts2), component: comp_label.clone(), class: format!("{label},rest-absent") });
+                    }
+                }
             }
             // character classes at first / middle / last position
             let base = sample(c, typical_len(c), k + ci);
